@@ -187,6 +187,8 @@ def drop_logging(txt):
 
 _ZIP_RE = re.compile(r'^([ \t]*)for \(&(\w+), (\w+)\) in ([\w\.]+)\.iter\(\)\.zip\(([\w\.]+)\.iter_mut\(\)\) \{[ \t]*$', re.M)
 _ENUM_RE = re.compile(r'^([ \t]*)for \((\w+), (\w+)\) in ([\w\.]+)\.iter\(\)\.enumerate\(\) \{[ \t]*$', re.M)
+_ENUMREF_RE = re.compile(r'^([ \t]*)for \((\w+), &(\w+)\) in (.+?)\.iter\(\)\.enumerate\(\) \{[ \t]*$', re.M)
+_CHUNKS_RE = re.compile(r'^([ \t]*)for (\w+) in (.+?)\.chunks\((\w+)\) \{[ \t]*$', re.M)
 _FILL_RE = re.compile(r'^([ \t]*)([\w\.]+)\.fill\(([^()]+)\);[ \t]*$', re.M)
 
 
@@ -197,6 +199,11 @@ def index_loops(txt):
           ->  for verif_z in 0..ol_min_usize(A.len(), B.len()) { let P = A[verif_z]; BODY with `*O` := `B[verif_z]` }
       for (I, X) in A.iter().enumerate() { BODY }
           ->  for I in 0..A.len() { let X = &A[I]; BODY }
+      for (I, &P) in S.iter().enumerate() { BODY }   (S any slice expression, evaluated once)
+          ->  let verif_e_P = &S; for I in 0..verif_e_P.len() { let P = verif_e_P[I]; BODY }
+      for B in S.chunks(K) { BODY }
+          ->  let verif_ch_B = &S; for verif_c_B in 0..ol_chunk_count(verif_ch_B.len(), K) { let B = ol_chunk(verif_ch_B, verif_c_B, K); BODY }
+              (ol_chunk_count / ol_chunk: verified helpers; that they describe `chunks` is the documented behaviour, T-std)
       A.fill(V);  ->  ol_fill(&mut A, V);      (outlined, assumed contract: every element equals V afterwards)
     A body that uses O otherwise than as `*O` keeps that use and then fails to compile (undecided, never an alarm)."""
     while True:
@@ -221,13 +228,21 @@ def index_loops(txt):
         ind, iv, xv, a = m.groups()
         head = '%sfor %s in 0..%s.len() {\n%s    let %s = &%s[%s];' % (ind, iv, a, ind, xv, a, iv)
         txt = txt[:m.start()] + head + txt[m.end():]
+    # for (I, &P) in SLICE_EXPR.iter().enumerate() {  ->  the slice expression is evaluated once (its own bounds obligations
+    # stay), then an index loop:  let verif_e_P = &SLICE_EXPR; for I in 0..verif_e_P.len() { let P = verif_e_P[I];
+    txt = _ENUMREF_RE.sub(lambda m: '%slet verif_e_%s = &%s; for %s in 0..verif_e_%s.len() {\n%s    let %s = verif_e_%s[%s];' % (
+        m.group(1), m.group(3), m.group(4), m.group(2), m.group(3), m.group(1), m.group(3), m.group(3), m.group(2)), txt)
+    # for B in SLICE_EXPR.chunks(K) {  ->  let verif_ch_B = &SLICE_EXPR; for verif_c_B in 0..ol_chunk_count(verif_ch_B.len(), K) {
+    #                                          let B = ol_chunk(verif_ch_B, verif_c_B, K);
+    txt = _CHUNKS_RE.sub(lambda m: '%slet verif_ch_%s = &%s; for verif_c_%s in 0..ol_chunk_count(verif_ch_%s.len(), %s) {\n%s    let %s = ol_chunk(verif_ch_%s, verif_c_%s, %s);' % (
+        m.group(1), m.group(2), m.group(3), m.group(2), m.group(2), m.group(4), m.group(1), m.group(2), m.group(2), m.group(2), m.group(4)), txt)
     txt = _FILL_RE.sub(r'\1ol_fill(&mut \2, \3);', txt)
     return txt
 
 
 PRE = {'drop_logging': drop_logging, 'index_loops': index_loops}
 PRE_DOC = {'drop_logging': ('logging statements', '(dropped)'),
-           'index_loops': ('for .. in A.iter().zip(B.iter_mut()) / A.iter().enumerate() / A.fill(v)', 'index loops over the same elements / ol_fill(&mut A, v)')}
+           'index_loops': ('for .. in A.iter().zip(B.iter_mut()) / S.iter().enumerate() / S.chunks(k) / A.fill(v)', 'index loops over the same elements / ol_fill(&mut A, v)')}
 
 
 def apply_pre(txt, names):
